@@ -439,7 +439,7 @@ def advance (q : Quirks) (c : Cfg) :
           -- the execution ends while attempts that failed earlier are on record: what is left of them is tidied up
           let (acts, v') := tidyEnd c v none [ev] []
           ([.note true] ++ acts ++ [.ackEv ev] ++ ackR, v')
-        else if q.attemptFailureForgotten && !js.isEmpty then
+        else if (q.attemptFailureForgotten || q.batchRelaunched) && !js.isEmpty then
           -- the engine has other attempts on record (what a crash left of an attempt that had failed, a second launch of
           -- a fan-out state …), none of them known to be over: the events held for them are let go, nothing is cancelled
           let ids := (((js.map (·.jid)).foldl (fun acc x => insertSorted x acc) []).flatMap (registered c none)).map (·.id)
